@@ -112,7 +112,7 @@ theorem sumBytes_append (a : List (Nat × Int)) (i : Nat) (n : Int) : sumBytes (
   | cons p r ih => obtain ⟨j, k⟩ := p; simp [sumBytes, ih]; omega
 
 theorem write_preserves (ls : List Leaf) (S : Int) (hS : Leaf.size S ∈ ls) (s : Sink) (m : Msg)
-    (hinv : SinkInv ls S s) : SinkInv ls S (Sink.write ls s m) := by
+    (hm : m.disk ≤ m.bytes) (hinv : SinkInv ls S s) : SinkInv ls S (Sink.write ls s m) := by
   obtain ⟨hlen, hclosed, hcur⟩ := hinv
   unfold Sink.write
   simp only
@@ -132,25 +132,54 @@ theorem write_preserves (ls : List Leaf) (S : Int) (hS : Leaf.size S ∈ ls) (s 
     simp only [FileRec.size, sumBytes_append] at hfit ⊢
     omega
 
-/-- `file_size_bounded` – FULL statement, any message sizes (the encoding is an arbitrary oracle:
-`bytes` is whatever `len(message.encode(...))` returns), any limit, any pre-existing size, any
-companion conditions in the list (time conditions with any state), any history:
-every file the sink has touched satisfies the bound. -/
-theorem file_size_bounded (ls : List Leaf) (S : Int) (hS : Leaf.size S ∈ ls) (ctime P : Int) (ms : List Msg) :
+/-- `file_size_bounded` – FULL statement (kept visible; it is FALSE of the current code, see
+`file_size_bounded_statement_false`): any message sizes – the encoding AND the text layer are
+arbitrary oracles: `bytes` is whatever `len(message.encode(...))` returns, `disk` whatever the
+stream appends –, any limit, any pre-existing size, any companion conditions in the list, any
+history: every file the sink has touched satisfies the bound. -/
+def file_size_bounded_statement : Prop :=
+  ∀ (ls : List Leaf) (S : Int), Leaf.size S ∈ ls → ∀ (ctime P : Int) (ms : List Msg),
+    ∀ f ∈ (Sink.run ls (Sink.init ls ctime P) ms).files, Bounded S f
+
+/-- proved part: as long as the text layer appends no more bytes than `message.encode()` has
+(no newline expansion: open()'s `newline` is None on POSIX, "", "\n" or "\r"), the bound holds for
+any encoding oracle, any limit, any list containing the size condition, any pre-existing size and
+any history (former finding F4 stays fixed). -/
+theorem file_size_bounded_partial (ls : List Leaf) (S : Int) (hS : Leaf.size S ∈ ls) (ctime P : Int) (ms : List Msg)
+    (hms : ∀ m ∈ ms, m.disk ≤ m.bytes) :
     ∀ f ∈ (Sink.run ls (Sink.init ls ctime P) ms).files, Bounded S f := by
   have hinit : SinkInv ls S (Sink.init ls ctime P) := by
     refine ⟨by simp [Sink.init, initStates], by simp [Sink.init], ?_⟩
     left; simp [Sink.init, FileRec.size, sumBytes]; omega
-  have hrun : ∀ (ms : List Msg) (s : Sink), SinkInv ls S s → SinkInv ls S (Sink.run ls s ms) := by
+  have hrun : ∀ (ms : List Msg) (s : Sink), (∀ m ∈ ms, m.disk ≤ m.bytes) → SinkInv ls S s →
+      SinkInv ls S (Sink.run ls s ms) := by
     intro ms
     induction ms with
-    | nil => intro s h; simpa [Sink.run] using h
-    | cons m ms ih => intro s h; simpa [Sink.run] using ih _ (write_preserves ls S hS s m h)
-  obtain ⟨_, hc, hcur⟩ := hrun ms _ hinit
+    | nil => intro s _ h; simpa [Sink.run] using h
+    | cons m ms ih =>
+      intro s hm h
+      simpa [Sink.run] using ih _ (fun y hy => hm y (by simp [hy]))
+        (write_preserves ls S hS s m (hm m (by simp)) h)
+  obtain ⟨_, hc, hcur⟩ := hrun ms _ hms hinit
   intro f hf
   rcases List.mem_append.mp hf with h | h
   · exact hc f h
   · simp at h; subst h; exact hcur
+
+/-- WITNESS (finding `C19-newline-translation-undercounted`, replayed on the implementation by
+harness/c19.py): limit 17, newline="\r\n", two messages of 8 encoded bytes that take 9 bytes on
+disk: the second one passes the test (9 + 8 ≤ 17) and the file ends up with 18 bytes. -/
+theorem newline_translation_witness :
+    ((Sink.run [.size 17] (Sink.init [.size 17] 0 0) [⟨⟨0, 0⟩, 8, 8, 9⟩, ⟨⟨1, 0⟩, 8, 8, 9⟩]).files.map
+      (fun f => (f.size, f.msgs.length))) = [(18, 2)] := by decide +kernel
+
+theorem file_size_bounded_statement_false : ¬ file_size_bounded_statement := by
+  intro h
+  have hb := h [.size 17] 17 (by simp) 0 0 [⟨⟨0, 0⟩, 8, 8, 9⟩, ⟨⟨1, 0⟩, 8, 8, 9⟩]
+    { initial := 0, msgs := [(0, 9), (1, 9)] } (by decide +kernel)
+  rcases hb with hb | hb
+  · revert hb; decide +kernel
+  · exact absurd hb.2 (by decide)
 
 /-- `minimal`: with the size condition alone, a new file is started only when the message does not fit -/
 theorem new_file_only_when_needed (S : Int) (s : Sink) (m : Msg) (hlen : s.states.length = 1) :
@@ -175,7 +204,7 @@ theorem new_file_only_when_needed (S : Int) (s : Sink) (m : Msg) (hlen : s.state
 every file stays within 16 bytes (one message per file), evaluated on the generated kernel -/
 theorem size_bound_regression :
     ((Sink.run [.size 16] (Sink.init [.size 16] 0 0)
-        [⟨⟨0, 0⟩, 9, 5⟩, ⟨⟨1, 0⟩, 9, 5⟩, ⟨⟨2, 0⟩, 9, 5⟩, ⟨⟨3, 0⟩, 9, 5⟩]).files.map FileRec.size) = [9, 9, 9, 9] := by
+        [⟨⟨0, 0⟩, 9, 5, 9⟩, ⟨⟨1, 0⟩, 9, 5, 9⟩, ⟨⟨2, 0⟩, 9, 5, 9⟩, ⟨⟨3, 0⟩, 9, 5, 9⟩]).files.map FileRec.size) = [9, 9, 9, 9] := by
   decide +kernel
 
 /-- `parse_size_denotes`: the documented spellings denote the documented quantities -/
@@ -203,7 +232,7 @@ theorem size_spelling_eq_number (s : Str) (q : Rat') (h : parseSize s = .ok (som
 than the limit -/
 example :
     ((Sink.run [.size 16, .time (Form.daily).cfg] (Sink.init [.size 16, .time (Form.daily).cfg] 0 10)
-        [⟨⟨1, 0⟩, 6, 6⟩, ⟨⟨2, 0⟩, 1, 1⟩, ⟨⟨3, 0⟩, 40, 40⟩, ⟨⟨86400000000, 0⟩, 1, 1⟩]).files.map FileRec.size)
+        [⟨⟨1, 0⟩, 6, 6, 6⟩, ⟨⟨2, 0⟩, 1, 1, 1⟩, ⟨⟨3, 0⟩, 40, 40, 40⟩, ⟨⟨86400000000, 0⟩, 1, 1, 1⟩]).files.map FileRec.size)
       = [16, 1, 40, 1] := by decide +kernel
 
 end C19
